@@ -541,7 +541,9 @@ def generate(seed, tier):
             return ["addattr", r.choice(names)]
         if k == "eqforeign":
             return ["eqforeign", r.choice(names), r.choice([["i", 5], ["s", "x"], ["none"],
-                                                             ["t", [["i", 1]]]])]
+                                                             ["t", [["i", 1]]], ["np", "int64", "5"],
+                                                             ["np", "float64", "1.0"], ["fr", 1, 2],
+                                                             ["b", True], ["c", "1.0", "0.0"]])]
         return ["sweep"]
 
     if not tmode:
@@ -834,13 +836,15 @@ def execute(scenario, open_sigs):
             other = B.build(op[2])
             try:
                 r1, r2 = bool(o == other), bool(o != other)
+                r3, r4 = bool(other == o), bool(other != o)      # reflected
             except InjectedInterrupt:
                 raise
             except Exception as e:  # noqa: BLE001
                 viol("C01/eq-raised", {"a": tgt, "foreign": op[2], "exc": type(e).__name__})
                 return ["eqforeign"]
-            if r1 or not r2:
-                viol("C01/eq-mismatch", {"a": tgt, "foreign": op[2], "got": r1, "want": False})
+            if r1 or not r2 or r3 or not r4:
+                viol("C01/eq-mismatch", {"a": tgt, "foreign": op[2], "got": [r1, r2, r3, r4],
+                                         "want": [False, True, False, True]})
             return ["eqforeign", r1]
         if k == "lookup":
             _, ckind, key, pt = op
